@@ -28,6 +28,8 @@ def f64(bits):
 
 
 def f64bits(x):
+    if x != x:
+        return 0x7ff8000000000000        # every NaN is written as the canonical quiet NaN (as the harness does)
     return struct.unpack("<Q", struct.pack("<d", x))[0]
 
 
@@ -36,6 +38,8 @@ def f32(bits):
 
 
 def f32bits(x):
+    if x != x:
+        return 0x7fc00000
     try:
         return struct.unpack("<I", struct.pack("<f", x))[0]
     except OverflowError:
@@ -385,7 +389,7 @@ class Oracle:
         ok = True
         if cond != "-":
             op, ref = cond.split(":")
-            refv = tof(int(ref, 16)) if isf else int(ref)
+            refv = tof(int(ref, 16)) if isf else wrap(ty, int(ref))   # the handler casts the 32-bit wire field
             ok = {"eq": cur == refv, "ne": cur != refv, "gt": cur > refv, "ge": cur >= refv,
                   "lt": cur < refv, "le": cur <= refv}[op]
         base = old or blank()
